@@ -92,6 +92,11 @@ structure Interface.ValidNames (i : Interface) : Prop where
 inductive DeclOp where
   | addMethod (name : Str) (ins outs : List Ty)
   | addSignal (name : Str) (args : List Ty)
+  /-- `addMethod` of a `Method` OBJECT that was counted before: one instance shared by two interface
+  definitions (already added elsewhere), so its `nargs`/`nret` are set and `addMethod` does not count again -/
+  | addCountedMethod (name : Str) (ins outs : List Ty)
+  /-- likewise for a shared `Signal` object -/
+  | addCountedSignal (name : Str) (args : List Ty)
   | addProperty (name : Str) (ty : List Ty) (readable writeable : Bool) (emitsOnChange : EmitsArg)
   | delMethod (name : Str)
   | delSignal (name : Str)
@@ -102,6 +107,8 @@ inductive DeclOp where
 def DeclOp.toOp : DeclOp → Op
   | .addMethod n ins outs => .addMethod (Method.new n (renderAll ins) (renderAll outs))
   | .addSignal n ts => .addSignal (Signal.new n (renderAll ts))
+  | .addCountedMethod n ins outs => .addMethod ⟨n, ins.length, outs.length, renderAll ins, renderAll outs⟩
+  | .addCountedSignal n ts => .addSignal ⟨n, ts.length, renderAll ts⟩
   | .addProperty n ty r w e => .addProperty (Property.new n (renderAll ty) r w e)
   | .delMethod n => .delMethod n
   | .delSignal n => .delSignal n
